@@ -230,6 +230,8 @@ func Seed(w Sys, s int) {
 		must(c)
 		must(c2)
 		must(w.Truncate("/w/c", 3))
+		// a special bit that a later Chmod has to be able to clear
+		must(w.Chmod("/w/a", 0o1755))
 	}
 }
 
